@@ -195,7 +195,7 @@ func (n *Net) PendingMin() int {
 	var bt cs.VerifTimeout
 	for _, i := range n.Order {
 		t, ok := n.Nodes[i].Ticker.Pending()
-		if !ok {
+		if !ok || n.Nodes[i].Halted != "" {
 			continue
 		}
 		if best < 0 || t.Height < bt.Height || (t.Height == bt.Height && (t.Round < bt.Round || (t.Round == bt.Round && t.Step < bt.Step))) {
@@ -212,6 +212,7 @@ type SyncResult struct {
 	MaxRound int32
 	Iter     int
 	Budget   bool // iteration budget exhausted (inconclusive)
+	Halted   bool // a correct node stopped on a consensus panic
 }
 
 // RunSync runs the synchronous suffix until every correct node has decided
@@ -240,6 +241,10 @@ func (n *Net) RunSync(target int64, roundCap int32, maxIter int, byz func()) Syn
 		}
 		if done {
 			res.Decided = true
+			return res
+		}
+		if len(n.HaltedNodes()) > 0 {
+			res.Halted = true
 			return res
 		}
 		if res.MaxRound > roundCap {
